@@ -315,6 +315,18 @@ GROUPS = {
         nontrivial='lists of at least two hooks',
         functions=['EndpointHooksList::{before_connect, after_handshake}', 'Endpoint::connect_with_opts', 'conn_from_noq_conn (the handshake-completion block)'],
     ),
+    # second line behind the Verus unit relay_handshake
+    'relay_handshake_bx': dict(
+        unit='relay_handshake.rs', props=['C03'],
+        bounds=dict(quick=['1', '0'], thorough=['1', '0']),
+        space='an adversarial client holding the secret keys of S = {{A}} or {{A, B}}: 8 auth-header variants (none, honest, material of another TLS session, naming a foreign id K '
+              'but signed by A, broken signature, not base64, not deserializable, the second key) x 9 answers to the challenge (none, honest, naming K signed by A, a signature '
+              'over another challenge, broken signature, a frame of the wrong type, an undeserializable frame, an empty frame, the second key) x TLS exporter present / absent x '
+              'access decision none / allow / deny (argument {0} unused)',
+        nontrivial='runs with a header and an answer',
+        functions=['serverside', 'ServerChallenge::{new, message_to_sign}', 'ClientAuth::{new, verify}', 'KeyMaterialClientAuth::{new, verify}', 'read_frame', 'deserialize_frame',
+                   'SuccessfulAuthentication::{authorize_if, accept, deny}'],
+    ),
     # second line behind the Verus unit builder_bind
     'builder_bind_bx': dict(
         unit='builder_bind.rs', props=['C20'], takes_deferred=True,
@@ -400,6 +412,13 @@ def run_group(g, prop, tier='quick', only=None):
                         std_imported.add(name)
                         extra_tail += f'\nuse {path};   // imported by the source file; a change started using it\n'
                         std_added = True
+                    else:
+                        # ... or a type the change defined next to the code under test: extracted verbatim (derives kept minimal)
+                        item = source_type_item(name, regions)
+                        if item:
+                            std_imported.add(name)
+                            extra_tail += f'\n//@item {item[0]} {item[1]} {name} stripattrs derive=Debug,Clone\n'
+                            std_added = True
             # ... or rely on a conversion (`impl From<..> for T`) that the change added next to the code under test
             for dd in diags:
                 text = dd.get('message', '') + ' ' + (dd.get('rendered') or '')
@@ -521,6 +540,19 @@ def std_import_for(name, regions):
             _expand_use('', re.sub(r'\s+', ' ', m.group(1)).replace(' ', '') if ' as ' not in m.group(1) else re.sub(r'\s+', ' ', m.group(1)), out)
         if name in out:
             return out[name]
+    return None
+
+
+def source_type_item(name, regions):
+    files = {r.info['src_file'] for r in regions if r.kind == 'fn' and r.info.get('src_file')}
+    for rel in sorted(files):
+        try:
+            txt = open(os.path.join(extract.REPO, rel), encoding='utf-8').read()
+        except OSError:
+            continue
+        m = re.search(r'^\s*(?:pub(?:\([a-z]+\))?\s+)?(enum|struct)\s+' + re.escape(name) + r'\b', txt, re.M)
+        if m:
+            return rel, m.group(1)
     return None
 
 
